@@ -225,3 +225,12 @@ def select(tier, families=None, max_k=None, max_n=None, max_r=None):
             continue
         out.append(c)
     return out
+
+
+def with_variants(cfgs, names):
+    """one configuration per (code, variant): bodies that fork must make ONE call each, otherwise independent forks multiply"""
+    return [Cfg(*c, v) for c in cfgs for v in names]
+
+
+def split_variant(cfg):
+    return Cfg(*cfg[:-1]), cfg[-1]
